@@ -277,6 +277,7 @@ func runC02(c *Ctx) {
 	checkGotoWriters(c, p, "R02.3")
 	for _, d := range gmParserDirs {
 		checkLRDriver(c, p, "R02.4", gmRoot+"/"+d, "*Parser.Parse", false)
+		checkStackADT(c, p, "R02.4s", d)
 	}
 	checkAugment(c, p, "R02.5")
 	checkFirstSteps(c, p, "R02.6")
